@@ -79,6 +79,12 @@ pub struct Plan {
     /// from this seed)
     #[serde(default)]
     pub links: u64,
+    /// how the mappings directory is named and reached (SimDir::styled_dir; 0 = plain)
+    #[serde(default)]
+    pub dir_style: u8,
+    /// the root .tiny file is a pipe (read once, metadata reports size 0); only drawn when nothing damages the root
+    #[serde(default)]
+    pub root_is_pipe: bool,
 }
 
 // ------------------------------------------------------------------------------------------------
@@ -324,12 +330,19 @@ impl Engine for C05 {
                 }
             }
         }
-        let mut p = Plan { versions: names, states, edges, malform: None, stray: w.chance(25), create_order: if s.chance(15) { 0 } else { s.next() | 1 }, pre: None, ops: vec![], links: 0 };
+        let mut p = Plan { versions: names, states, edges, malform: None, stray: w.chance(25), create_order: if s.chance(15) { 0 } else { s.next() | 1 }, pre: None, ops: vec![], links: 0, dir_style: 0, root_is_pipe: false };
         {
             let mut l = rng.split("links");
             if l.chance(15) {
                 p.links = l.next() | 1;
             }
+        }
+        {
+            let mut e = rng.split("environment");
+            if e.chance(25) {
+                p.dir_style = 1 + e.below(7) as u8;
+            }
+            p.root_is_pipe = e.chance(8);
         }
         // malformed directories in ~25 % of the runs
         if w.chance(25) {
@@ -486,6 +499,16 @@ impl Engine for C05 {
         if p.malform.is_some() {
             let mut q = p.clone();
             q.malform = None;
+            c.push(q);
+        }
+        if p.dir_style != 0 {
+            let mut q = p.clone();
+            q.dir_style = 0;
+            c.push(q);
+        }
+        if p.root_is_pipe {
+            let mut q = p.clone();
+            q.root_is_pipe = false;
             c.push(q);
         }
         // drop the last version (if nothing else refers to it)
@@ -660,12 +683,27 @@ fn run_once(p: &Plan, create_order: u64, st: &mut RunStats, answers: &mut Vec<St
         }
     }
     // ---- create the files in the drawn order
-    let mut dir = SimDir::new("c05");
+    let mut dir = SimDir::new_styled("c05", p.dir_style, ".tiny");
+    let root_name = root_file(p);
+    let root_touched = p.pre.as_ref().is_some_and(|(e, _)| e.is_none()) || p.ops.iter().any(|o| matches!(o, Op::Mutate { edge: None, .. }));
+    if count && p.dir_style % 8 != 0 {
+        st.probe("dir_name_or_path_unusual");
+        st.nontrivial = true;
+        st.sched.u64(0xD1 ^ p.dir_style as u64);
+    }
     let mut create: Vec<(String, Vec<u8>)> = disk.iter().map(|(k, v)| (k.clone(), v.clone())).collect();
     if create_order != 0 {
         Rng::new(create_order).shuffle(&mut create);
     }
     for (n, b) in &create {
+        if p.root_is_pipe && !root_touched && *n == root_name {
+            if dir.create_pipe_file(n, b) && count {
+                st.probe("root_file_is_a_pipe");
+                st.nontrivial = true;
+                st.sched.u64(0x9199);
+            }
+            continue;
+        }
         if p.links != 0 && (crate::rng::fnv(n.as_bytes()) ^ p.links) % 3 == 0 {
             dir.create_link(n, b);
             if count {
@@ -694,7 +732,7 @@ fn run_once(p: &Plan, create_order: u64, st: &mut RunStats, answers: &mut Vec<St
     }
 
     // ---- resolve
-    let path = dir.path().to_path_buf();
+    let path = dir.given_path().to_path_buf();
     let graph = match no_panic(|| VersionGraph::resolve(&path)) {
         Err(pm) => {
             out.push(Violation::new("T0", "panic", format!("resolve:{}", panic_path(&pm)), pm));
